@@ -501,14 +501,14 @@ def opt_cases(draw, caps: dict, names: list, second_names: list | None = None):
         if pool:
             second = {"algo": draw(st.sampled_from(sorted(pool))), "max_iter": draw(st.integers(1, n_max)),
                       "reset": draw(st.booleans())}
-        if algo not in SLOW_AFTER_INITIALISATION and draw(st.booleans()):
+        if algo not in SLOW_AFTER_INITIALISATION and draw(st.integers(0, 2)) > 0:
             # restart variant: the database is tampered with between the executions (outputs dropped by
             # Database.filter, output-less store, clear), then the same algorithm starts again from the same x0
             # with a budget that is not larger
-            kept = draw(st.sampled_from(["none", "none", "objective", "constraints"]))
-            tamper = draw(st.sampled_from([{"op": "filter", "keep": kept}, {"op": "filter", "keep": kept},
-                                           {"op": "store_empty"}, {"op": "clear"}]))
-            second = {"algo": algo, "max_iter": draw(st.integers(1, max(1, n_iter))), "reset": draw(st.booleans()),
+            none = {"op": "filter", "keep": "none"}
+            tamper = draw(st.sampled_from([none, none, none, none, {"op": "filter", "keep": "objective"},
+                                           {"op": "filter", "keep": "constraints"}, {"op": "store_empty"}, {"op": "clear"}]))
+            second = {"algo": algo, "max_iter": draw(st.integers(1, max(1, n_iter - 1))), "reset": draw(st.integers(0, 3)) > 0,
                       "tamper": tamper, "same_start": True}
     return {"algo": algo, "max_iter": n_iter, "stop": stop, "problem": problem, "settings": settings, "extra": extra,
             "seed": seed, "second": second}
